@@ -195,10 +195,8 @@ Fixpoint ext_aux (s : list Z) (cur : option (list Z)) : list Z :=      (* cur: t
               else ext_aux r (match cur with Some x => Some (c :: x) | None => None end)
   end.
 Definition ext_of (nm : list Z) : list Z := map lower (ext_aux nm None).
-Definition zip_extensions : list (list Z) :=
-  [ [46;122;105;112]; [46;122;105;112;120]; [46;55;122]; [46;115;55;122]; [46;103;122]; [46;116;97;114;46;103;122];
-    [46;116;103;122]; [46;120;122]; [46;108;122]; [46;108;122;109;97]; [46;114;122]; [46;112;97;99;107]; [46;122]; [46;106;97;114] ].
-    (* .zip .zipx .7z .s7z .gz .tar.gz .tgz .xz .lz .lzma .rz .pack .z .jar *)
+(* the extension list is GENERATED from zip.go (Gen.v, zip_extensions_gen) on every run *)
+Definition zip_extensions : list (list Z) := zip_extensions_gen.
 Definition zipext (nm : list Z) : bool := existsb (bytes_eqb (ext_of nm)) zip_extensions.
 Definition rec_applies (lim : option limits) : bool := match lim with Some l => l_rec l | None => false end.
 
